@@ -14,7 +14,13 @@ RULE = ("committed corpus (corpus/C05M: the inputs of review A - a clean book wi
         "clone of the map, the books are read through the original handles afterwards, every cell is printed after every run, and later runs continue "
         "from the books the earlier ones left). 12 % of the cases use long books (24-48, thorough 24-70 distinct prices per side) so that the binary "
         "search runs over many levels. thorough additionally enumerates, for bids and for asks, every base side of <= 4 levels over 3 prices "
-        "(duplicates allowed, amounts distinct by position) x one upserted level over 7 prices x {delete, set} (3 388 cases). A case is distinct by "
+        "(duplicates allowed, amounts distinct by position) x one upserted level over 7 prices x {delete, set} (3 388 cases). Input-domain family (one `d` "
+        "case per five random ones, own random stream; class by case index): signed - negative amounts incl. pairs that cancel exactly (the modelled "
+        "division-by-zero panic of volume_weighed_mid_price through cells, snapshots and the manager), -0, price grids below / at / above zero; edges - "
+        "sequence numbers 0 ... 2^32 ... 2^53+1 ... 2^63 ... u64::MAX in any order and time_engine from year 0, -1 ms, 0, 1 ms, now, year 9999 (equal and "
+        "decreasing); magnitude - prices at 1e-8 and 1e12, amounts 1e-8 ... 1e12; long - sides of 100-260 levels and update lists of up to 300 levels "
+        "with duplicate prices and zero amounts; levels - Level's order over -0, +-1e-8, +-1e12, 100.25 = 100.250; snapshot depths from {0..8, 16, 100, "
+        "2^63, usize::MAX}. corpus/C05M/dom_input_domain.ops holds one hand-written case per class. A case is distinct by "
         "the SHA-1 of its op lines and non-trivial when the implementation's observation block changes at least once")
 ASSUMPTIONS = [
     "slice::binary_search_by is modelled by a transcription of the loop of core::slice (std >= 1.82: size halving without early exit, base moves right "
@@ -36,13 +42,15 @@ ASSUMPTIONS = [
     "the code when an intermediate sum / product exceeds Decimal::MAX, where the model and the spec compute the exact value. Witness (review A, C05M "
     "item 2; audit/sub/scratch_A/C05M_edge.ops): `cell 2 - | 79228162514264337593543950335:1 | 79228162514264337593543950335:1` - the code panics "
     "in mid_price (rust_decimal 'Addition overflowed': Decimal::MAX + Decimal::MAX; the harness prints `panic` / `# panicmsg addition-overflowed`), model and spec print mid ~79228162514264337593543950335. Not in the corpus "
-    "(it fails by design); generated prices have at most 7 digits, amounts at most 7. volume_weighed_mid_price is compared to 1e-18",
+    "(it fails by design); generated prices have at most 15 digits, amounts at most 13 (every product within 28 digits). volume_weighed_mid_price is compared to 1e-18 (relative)",
     "the Decimal DIVISION BY ZERO of volume_weighted_mid_price is modelled, as a panic: the call panics iff both sides are non-empty and the two best "
     "amounts sum to zero (vw_mid_panics_iff); every statement about its value carries the explicit guard `not vwMidPanics` (spec_observables, "
     "vw_mid_value) and the spec prints `vw panic` from its own condition on the price -> amount maps (vwMidUndefined). The guard is NOT implied by clean "
     "input: OrderBook::new(1, None, [(100,1)], [(101,-1)]) is clean and panics (vw_mid_witness, corpus/C05M vw_clean_negative_amount); it is implied by "
-    "positive amounts (vw_mid_safe_of_positive_amounts). Generated amounts are >= 0 (so generated panics need a zero-amount constructor input); negative "
-    "amounts come from the corpus only; prices may be negative",
+    "positive amounts (vw_mid_safe_of_positive_amounts). The random (`r`) cases draw amounts >= 0 (their panics need a zero-amount constructor input); the "
+    "input-domain (`d`) cases and the corpus draw negative amounts, cancelling pairs included; prices may be negative",
+    "the harness reports a sequence number or a depth that is not a u64 / usize as bad-op, and so do both drivers (>= 2^64); a time_engine outside "
+    "chrono's DateTime range is not generated (the harness would panic where the drivers accept any integer)",
     "time_engine is an integer number of milliseconds (DateTime<Utc> range and sub-millisecond precision not modelled)",
     "Arc<RwLock<OrderBook>> cells are indices into a list of books; the manager is run on a current-thread runtime over a finite stream, so lock "
     "contention with concurrent readers / writers and fairness are not modelled; tracing output (warn on Reconnecting / unknown instrument, debug on "
